@@ -277,8 +277,13 @@ class Renderer:
             head = [f[1]] if f[0] == "var" else ["("] + self.e(f, 0) + [")"]
             return head + self.args(t[2])
         if k == "pipe":
-            assert t[2][0] == "var"
-            return self.e(t[1], 9) + ["!>", t[2][1]] + self.args(t[3])
+            # the callee is a name or a chain of members of a name: a !> f(...), a !> o->p->f(...)
+            def chain(f):
+                if f[0] == "var":
+                    return [f[1]]
+                assert f[0] == "member", f
+                return chain(f[1]) + ["->", f[2]]
+            return self.e(t[1], 9) + ["!>"] + chain(t[2]) + self.args(t[3])
         if k == "mcall":
             return self.e(t[1], 9) + ["->", t[2]] + self.args(t[3])
         if k == "member":
@@ -449,6 +454,8 @@ def respell_string(tok, r):
             out.append("\\r" if k < 0.6 else "\\x0d")
         elif ch == "\t":
             out.append("\\t" if k < 0.5 else ("\\x09" if k < 0.8 else "\t"))
+        elif 0x80 <= ord(ch) <= 0xff and k < 0.5:
+            out.append("\\x%02x" % ord(ch))   # a Latin-1 character as an escape
         elif ch in "'\"" and k < 0.3:
             out.append("\\" + ch)          # escaping the other quote is an identity escape
         elif ord(ch) < 256 and (ord(ch) < 32 or 127 <= ord(ch) < 161):
